@@ -117,6 +117,14 @@ impl MessageWithoutValueDeserializer {
     { unimplemented!() }
 
     #[verifier::external_body]
+    pub fn try_get_uuid(&mut self) -> (r: Result<Uuid, MessageDeserializeError>)
+        ensures
+            (r is Ok) == (old(self).rest().len() > 0 && old(self).rest()[0] is Id),
+            r is Ok ==> old(self).rest()[0] == Field::Id(r->Ok_0)
+                && final(self).rest() == old(self).rest().subrange(1, old(self).rest().len() as int),
+    { unimplemented!() }
+
+    #[verifier::external_body]
     pub fn try_get_discriminant_u8<T: Disc>(&mut self) -> (r: Result<T, MessageDeserializeError>)
         ensures
             (r is Ok) == (old(self).rest().len() > 0 && old(self).rest()[0] is Disc
@@ -148,6 +156,15 @@ impl MessageWithValueDeserializer {
         ensures
             (r is Ok) == (old(self).rest().len() > 0 && old(self).rest()[0] is U32),
             r is Ok ==> old(self).rest()[0] == Field::U32(r->Ok_0)
+                && final(self).rest() == old(self).rest().subrange(1, old(self).rest().len() as int),
+            final(self).value() == old(self).value(),
+    { unimplemented!() }
+
+    #[verifier::external_body]
+    pub fn try_get_uuid(&mut self) -> (r: Result<Uuid, MessageDeserializeError>)
+        ensures
+            (r is Ok) == (old(self).rest().len() > 0 && old(self).rest()[0] is Id),
+            r is Ok ==> old(self).rest()[0] == Field::Id(r->Ok_0)
                 && final(self).rest() == old(self).rest().subrange(1, old(self).rest().len() as int),
             final(self).value() == old(self).value(),
     { unimplemented!() }
